@@ -597,6 +597,61 @@ fn c01_struct_element__yt() {
     kani::cover!(is_ok && field_idx == 1, "cover.second_field");
 }
 
+// ---- contract: serialize_struct / serialize_tuple entry (struct header: 8-byte alignment padding, dispatch by signature) ----
+// requires signature (yt), wf depths, window has room
+// ensures  Ok <=> structure depth + 1 within the limits ; Ok ==> exactly pad(abs, 8) zero bytes written (STRUCT alignment),
+//          the struct variant of the serializer is returned with field index 0, the original depths saved, and the
+//          serializer's structure depth + 1 ; no other byte changed
+// @unit C01.serialize_struct.yt props=C01,C02,C07 kind=complete fn=<&mut.zvariant::dbus::Serializer.as.serde::Serializer>::serialize_struct,zvariant::dbus::ser::StructSerializer::structure timeout=1800
+#[cfg(not(verif_skip_c01_serialize_struct_yt__complete))]
+#[cfg(kani)]
+#[kani::proof]
+#[kani::stub(alloc::fmt::format, stub_format)]
+#[kani::stub(<Signature as std::clone::Clone>::clone, stub_sig_clone)]
+#[kani::stub(<str as std::string::ToString>::to_string, stub_str_to_string)]
+#[kani::unwind(3)]
+fn c01_serialize_struct_yt__complete() {
+    let buf0: [u8; 24] = kani::any();
+    let mut buf = buf0;
+    let w0: usize = kani::any();
+    kani::assume(w0 <= 8);
+    let (p, bw0, bw1, ok, expect_ok, shape_ok, wpos) = {
+        let mut cur: Cur<'_> = Cursor::new(&mut buf[..]);
+        cur.set_position(w0 as u64);
+        let mut fds = ManuallyDrop::new(FdList::Number(0));
+        let (mut ser, _big) = any_ser(&mut cur, &mut fds, &SIG_STRUCT_YT);
+        let d0 = any_wf_depths();
+        let (s0, a0, v0) = counters(&d0);
+        ser.0.container_depths = d0;
+        let bw0 = ser.0.bytes_written;
+        let p = spec_pad(ser.0.ctxt.position() + bw0, 8);
+        let expect_ok = spec_depth_ok(s0 as u32 + 1, a0 as u32, v0 as u32, 0);
+        let r = serde::Serializer::serialize_struct(&mut *ser, "", 2);
+        let ok = r.is_ok();
+        let shape_ok = match &r {
+            Ok(StructSeqSerializer::Struct(st)) => st.field_idx == 0 && counters(&st.container_depths) == (s0, a0, v0)
+                && counters(&st.ser.0.container_depths) == (s0 + 1, a0, v0) && core::ptr::eq(st.ser.0.signature, &SIG_STRUCT_YT),
+            Ok(_) => false,
+            Err(_) => true,
+        };
+        let bw1 = match &r { Ok(StructSeqSerializer::Struct(st)) => st.ser.0.bytes_written, _ => bw0 + p };
+        core::mem::forget(r);
+        (p, bw0, bw1, ok, expect_ok, shape_ok, cur.position() as usize)
+    };
+    obl!("C01.serialize_struct.yt.ok_iff_depth_within_limits", ok == expect_ok);
+    obl!("C01.serialize_struct.yt.struct_serializer_state", shape_ok);
+    obl!("C01.serialize_struct.yt.only_the_alignment_padding_written", bw1 == bw0 + p && wpos == w0 + p);
+    let i: usize = kani::any();
+    kani::assume(i < 24);
+    if i >= w0 && i < w0 + p {
+        obl!("C01.serialize_struct.yt.padding_to_8_is_zero", buf[i] == 0);
+    } else {
+        obl!("C01.serialize_struct.yt.frame", buf[i] == buf0[i]);
+    }
+    kani::cover!(ok && p == 7, "cover.pad7");
+    kani::cover!(!ok, "cover.depth_exceeded");
+}
+
 // ---- contract: MapSerializer::{serialize_key, serialize_value}  (dict a{ih}: key `i` plain word, value `h` fd index) ----
 // state: inside a dict (after serialize_seq): current signature = key signature
 // ensures serialize_key:   pad(abs, 8) zero bytes (DICT_ENTRY alignment) ++ the key encoded UNDER THE KEY SIGNATURE
